@@ -724,6 +724,13 @@ def oracle(c, obs, present=frozenset()):
         # Arnoldi relation on the active columns
         if a > 0 and np.abs(S @ Q[:, :a] - Q @ H[:, :a]).max() > 1e-8 * scale:
             bad.append(tag + "A Q[:, :a] != Q H[:, :a] on the active columns")
+        # flag arnoldi_stop_threshold_gap gone: a run that stops before max_iters must leave every later column of Q zero or carry its
+        # column of H, i.e. A Q[:, :m] = Q H holds in EVERY column (checked when no remainder is at rounding level)
+        if "arnoldi_stop_threshold_gap" not in present and not garbage_ok and not batch_clipped and m > 0 and sd[:max(a, 1)].min(initial=1.0) > 1e-6 * scale:
+            fullres = np.abs(S @ Q[:, :m] - Q @ H).max(axis=0)
+            late = [j for j in range(a, m) if fullres[j] > 1e-6 * scale and np.abs(H[:, j]).max() == 0]
+            if late:
+                bad.append(tag + f"column {late[0]} of Q is non-zero but its column of H is zero (the run stopped): A Q[:, :m] = Q H fails there by {fullres[late[0]]:.3g}")
         if not ambiguous and not batch_clipped:
             if a < m:
                 # column a of H closed the factorisation (breakdown, or the cap min(max_iters, n) was reached)
